@@ -66,7 +66,8 @@ TraceInvalid ==
 (* Cli.tla: one run of the binary = the composition of the machine's steps; only the terminal state is observable *)
 IsDirKind(k) == k \in {"dir", "dir_slash", "symlink_dir"}
 CanInfer(f, k) == (k \in {"file", "devfull", "existing_larger"} /\ f # "archlinux") \/ k = "file_other_ext"
-ExpectFail(a) == a.fault # "none" \/ (~a.with_p /\ ~CanInfer(a.fmt, a.target_kind))
+Signs(f) == f \in {"deb", "rpm", "apk"}
+ExpectFail(a) == (a.fault # "none" /\ ~(a.fault = "missing_key" /\ ~Signs(a.built))) \/ (~a.with_p /\ ~CanInfer(a.fmt, a.target_kind))
 
 TraceCli ==
   /\ IsEv("cli")
@@ -81,6 +82,11 @@ TraceCli ==
                  \* nothing nfpm created is left; what was at the -t name before a run that fails before creating anything stays
                  \cup Cl(e.obs_fs \in {"absent", "old"}, "C06.cli_no_file_left")
                  \cup Cl(e.created_line = "", "C06.cli_no_success_message")
+                 \* a signing that fails leaves no package behind and reports none (C10), wherever the package was to go
+                 \cup (IF e.fault = "missing_key"
+                       THEN Cl(e.exit # 0 /\ e.created_line = "", "C10.failed_signing_not_reported_as_built")
+                            \cup Cl(e.obs_fs \in {"absent", "old"}, "C10.failed_signing_leaves_no_package")
+                       ELSE {})
             ELSE Cl(e.exit = 0, "C15.cli_succeeds")
                  \cup Cl(e.file_at_expected, "C15.cli_writes_to_requested_target")
                  \cup Cl(e.bytes_equal_library_build, "C06.cli_output_complete")
